@@ -308,7 +308,26 @@ fn run_case_worker(c: &FwCase, tx: std::sync::mpsc::Sender<Msg>) {
     fmt_snapshot(&mut out, &f);
     fmt_log_out(&mut out, &log);
     flush!();
-    for (t, evs) in &c.calls {
+    // In a quarter of the cases the observed run itself continues, from some call on, on a copy of the
+    // framework (clone, or clone_from into an instance with a different past).  A correct Clone makes no
+    // observable difference, so the comparison with the model and every monitor cover the copy as well.
+    let swap: Option<(usize, CopyHow)> = if c.rng_seed % 4 == 1 && !c.calls.is_empty() && c.ni.is_none() {
+        let how = [CopyHow::Clone, CopyHow::FromFresh, CopyHow::FromUsed][((c.rng_seed / 16) % 3) as usize];
+        Some((((c.rng_seed / 4) % c.calls.len() as u64) as usize, how))
+    } else {
+        None
+    };
+    for (ci, (t, evs)) in c.calls.iter().enumerate() {
+        if let Some((at, how)) = swap {
+            if at == ci {
+                maybenot::verif::enable(false);
+                if let Ok(nf) = catch_unwind(AssertUnwindSafe(|| copy_fw(&f, c, how))) {
+                    f = nf;
+                }
+                maybenot::verif::enable(true);
+                let _ = maybenot::verif::take();
+            }
+        }
         let evs_s: Vec<String> = evs.iter().map(ev_str).collect();
         let mut pend = String::new();
         fmt_log(&mut pend, &[]);
